@@ -6,6 +6,7 @@
 id=$1; v=$2; shift 2; extra="$@"
 src=/tmp/seed/$id/seed_out/$v
 dst=/verif/seeded/$id-$v
+[ -f $src/patch.diff ] || src=$dst
 [ -f $src/patch.diff ] || { echo "no patch in $src"; exit 2; }
 S=/tmp/vf_seed.$$; rm -rf $S; mkdir -p $S
 git -C /repo archive HEAD | tar -x -C $S
@@ -18,28 +19,33 @@ sed -i "s#/tmp/seed/$id/##g" $S/seed_out/$v/build.sh
 suite=$(/verif/tools/baseline.sh $S /tmp/vf_seed_bld.$$ | tail -1)
 ( cd $S && bash seed_out/$v/build.sh > $S/demo_mut.out 2>&1 ); mut_rc=$?
 echo "$id-$v: suite: $suite | demo clean rc=$clean_rc, changed rc=$mut_rc"
-mkdir -p /tmp/vf_ev.$$; cp /verif/evidence/*.json /tmp/vf_ev.$$/
+mkdir -p /tmp/vf_ev.$$ /tmp/vf_bld.$$; export VERIF_EVIDENCE_DIR=/tmp/vf_ev.$$ VERIF_BUILD=/tmp/vf_bld.$$
 results=""
 for p in $id $extra; do
   out=$(VERIF_REPO=$S /verif/run.sh $p quick 2>&1); rc=$?
   sigs=$(echo "$out" | grep "signature:" | sed 's/ (x.*//; s/^ *signature: //' | sort -u | head -6 | tr '\n' ';')
   echo "   $p quick on the changed tree: exit=$rc  $sigs"
-  results="$results{\"check\":\"$p\",\"tier\":\"quick\",\"exit\":$rc,\"signatures\":\"$(echo $sigs | sed 's/"/\\"/g')\"},"
+  results="$results{\"check\":\"$p\",\"tier\":\"quick\",\"exit\":$rc,\"signatures\":\"$(echo $sigs | sed 's/\\\\/\\\\\\\\/g; s/"/\\"/g')\"},"
 done
-cp /tmp/vf_ev.$$/*.json /verif/evidence/; rm -rf /tmp/vf_ev.$$
-mkdir -p $dst; cp $src/patch.diff $src/demo.* $src/build.sh $src/NOTES.md $dst/ 2>/dev/null
+rm -rf /tmp/vf_ev.$$ /tmp/vf_bld.$$
+mkdir -p $dst; [ "$src" = "$dst" ] || cp $src/patch.diff $src/demo.* $src/build.sh $src/NOTES.md $dst/ 2>/dev/null
 sed -i "s#/tmp/seed/$id/##g" $dst/build.sh
-needs=$(grep -i -m1 -A3 "trigger" $src/NOTES.md | tr '\n' ' ' | cut -c1-400 | sed 's/"/\\"/g; s/\\/\\\\/g')
-cat > $dst/meta.json <<EOM
-{
- "property": "$id",
- "variant": "$v",
+python3 - "$id" "$v" "$dst" "$suite" "$clean_rc" "$mut_rc" "${results%,}" "$extra" <<'PYEOF'
+import json, sys, re, subprocess
+pid, v, dst, suite, clean_rc, mut_rc, results, extra = sys.argv[1:9]
+notes = open(dst + '/NOTES.md', errors='replace').read() if __import__('os').path.exists(dst + '/NOTES.md') else ''
+needs = ''
+m = re.search(r'(?is)(trigger|needs|what it needs)[^\n]*\n(.{0,500})', notes)
+if m: needs = ' '.join((m.group(0)).split())[:500]
+meta = {
+ "property": pid, "variant": v,
  "origin": "fresh sub-agent given only the property text and its own scratch worktree of /repo",
- "repo_commit": "$(git -C /repo log --format=%h -1)",
- "confirmed": {"patch_applies": true, "repository_suite_on_changed_tree": "$suite", "demo_exit_on_clean_tree": $clean_rc, "demo_exit_on_changed_tree": $mut_rc},
- "needs_to_manifest": "$needs",
- "our_checks": [${results%,}],
- "ran": "tools/ingest_seed.sh $id $v $extra"
+ "repo_commit": subprocess.run(["git", "-C", "/repo", "log", "--format=%h", "-1"], stdout=subprocess.PIPE, universal_newlines=True).stdout.strip(),
+ "confirmed": {"patch_applies": True, "repository_suite_on_changed_tree": suite, "demo_exit_on_clean_tree": int(clean_rc), "demo_exit_on_changed_tree": int(mut_rc)},
+ "needs_to_manifest": needs,
+ "our_checks": json.loads("[" + results + "]"),
+ "ran": "tools/ingest_seed.sh %s %s %s" % (pid, v, extra)
 }
-EOM
+json.dump(meta, open(dst + '/meta.json', 'w'), indent=1)
+PYEOF
 rm -rf $S /tmp/vf_seed_bld.$$
